@@ -7,6 +7,7 @@ package chains
 import (
 	"context"
 	"crypto/x509"
+	"crypto/x509/pkix"
 	"encoding/asn1"
 	"fmt"
 	"math/big"
@@ -294,6 +295,24 @@ func buildCatalogue() []item {
 	// the authority key identifier of a certificate is not its issuer's subject
 	// key identifier (identifiers are hints; names, keys and signatures decide)
 	add("aki-differs-from-issuers-ski", true, notRoot, func(d *desc, pos int) { d.specs[pos].AKI = []byte("another-key-identifier") })
+	// RSA keys whose modulus size coincides with a supported EC size
+	for _, bits := range []int{256, 384} {
+		bits := bits
+		add(fmt.Sprintf("leaf-key-rsa%d", bits), false, func(pos, n int, ts bool) bool { return pos == 0 && n >= 2 }, func(d *desc, pos int) {
+			if k := pki.TinyRSA(bits); k != nil {
+				d.specs[0].Key = k
+			} else {
+				d.specs[0].Key = pki.K("rsa1024", 0)
+			}
+		})
+	}
+	// an extension nobody knows, marked critical, on the leaf: none of the stated
+	// requirements speaks about it
+	add("leaf-unknown-critical-extension", true, leafOnly, func(d *desc, pos int) {
+		d.specs[0].Extra = append(d.specs[0].Extra, pkix.Extension{Id: pki.OIDPlus(pki.OIDUnknownExt, 41), Critical: true, Value: []byte{0x05, 0x00}})
+	})
+	// the leaf carries its issuer's distinguished name (another key: not self-signed)
+	add("leaf-named-like-its-issuer", true, func(pos, n int, ts bool) bool { return pos == 0 && n >= 2 }, func(d *desc, pos int) { d.specs[0].CN = d.specs[1].CN })
 	add("leaf-eku-absent", true, csLeaf, func(d *desc, pos int) { d.specs[0].EKU = nil })
 	add("leaf-eku-codesigning-critical", true, csLeaf, func(d *desc, pos int) { d.specs[0].EKUCritical = true })
 	add("leaf-eku-any", true, csLeaf, func(d *desc, pos int) { d.specs[0].EKU = []x509.ExtKeyUsage{x509.ExtKeyUsageAny} })
